@@ -26,6 +26,14 @@ CHECKS = {
    tech='symbolic execution (z3, bit-vectors + IEEE floats) of the crate\'s eq/cmp/partial_cmp/hash/clone MIR on pairs and triples of values with symbolic leaves; Kani/CBMC proof harnesses for Coord over all f64 bit patterns; witnesses replayed natively',
    text='For every kind (18) a pair - and for 7 kinds a triple - of values with symbolic leaves (all non-NaN f64 bit patterns incl. +-0 and units none/meter/second, 1-byte strings, Ref with/without dis, symbolic calendar fields, equal instants in different zones, lists <= 2, dicts over keys {a,b,c}, grids <= 1 row) and cross-kind pairs is pushed through the real PartialEq, Ord, PartialOrd, Hash (recorded hash stream) and Clone implementations; every feasible path must satisfy reflexivity, symmetry, clone==orig, eq=>equal hash stream, cmp==Equal<=>eq, partial_cmp agrees with cmp, antisymmetry and (triples) transitivity. Kani proves the Coord laws for all 2^128 float pairs. Each path\'s witness is re-evaluated natively (same facts, same violated laws).',
    note='Bounds: strings 1 byte, collections <= 2 entries, one quarter of the 306 cross-kind pairs per quick run (seed-rotated; all in thorough). chrono\'s own Eq/Ord/Hash are modelled as instant comparison (trusted). NaN excluded as the property says.'),
+ 'C16': dict(engine='mirsym+kani', cat='model_checking', design='7 (C16), 3, 4',
+   tech='symbolic execution (z3, IEEE floats) of Unit::convert_to and Number +/- MIR on fully symbolic units; conversion result compared as an IEEE term with the specification formula; Kani/CBMC for UnitDimensions arithmetic; witnesses replayed natively',
+   text='convert_to is executed on two symbolic units (7 x i8 dimension vector or none, quantity, name, scale, offset, operand all symbolic): it must succeed exactly when the dimension vectors are equal or both are byte units, and its result term must be the term ((x*scale_a+offset_a)-offset_b)/scale_b - syntactic identity, otherwise the solver searches a differing input (narrow-float search lifted to f64, confirmed natively). Number + and -: same unit => Ok, unit kept, value = IEEE sum/difference; two different units => Err. Unit * and / reject dimensionless operands. Kani proves UnitDimensions +/- component-wise for all exponent vectors in [-8,8]^7.',
+   note='Structural and formula-level only: "converting back returns the original within rounding" and the database search behind unit products/quotients (match_units over the 443 generated units) are not decided. NaN payloads: canonical quiet NaN only.'),
+ 'C19': dict(engine='mirsym+kani', cat='model_checking', design='7 (C19), 3, 4',
+   tech='symbolic execution (z3) of the kind tables over all u8 codes and all ASCII names of length <= 8, of every is_*/TryFrom/getter on a value of each kind with symbolic payload, and of Grid::make_from_dicts over all key-membership patterns; Kani for the code table; every path replayed natively',
+   text='HaystackKind::try_from(u8) for a symbolic code and try_from(&str) for symbolic names (lengths 0..8) are executed from MIR: accepted codes/names must be exactly the 18 kinds, one-to-one with From<HaystackKind> for &str and Display. For a value of each of the 18 kinds (payload symbolic) exactly the matching predicate, the matching TryFrom<&Value> conversions (returning the payload) and the matching HaystackDict getters succeed, and nothing succeeds on a missing key. Grid::make_from_dicts(_with_meta) over <= 2 (quick) / 3 (thorough) records with every membership pattern of keys {a,b,c,d}: rows kept in order, columns = sorted de-duplicated union.',
+   note='Bounds as stated; HashSet iteration order is modelled as insertion order (the result is sorted afterwards). Kani: all 256 codes.'),
 }
 NA = {
  'C14': 'quantifies over thread interleavings on dashmap\'s sharded locks: Kani has no thread model, mirsym is sequential and dashmap is outside the MIR dump; no solver-based engine on this image reaches it (DESIGN.md section 8)',
